@@ -55,6 +55,7 @@ type ExploreOpts struct {
 	MaxSamples    int
 	Deadline      time.Time
 	Preempt       int
+	PreemptLocks  bool
 }
 
 type workItem struct {
@@ -279,6 +280,7 @@ func (e *Engine) newRun(fn *ssa.Function, solver *Solver, prefix []uint64, opts 
 		r.instrLimit = 20_000_000
 	}
 	r.preemptBudget = opts.Preempt
+	r.preemptLocks = opts.PreemptLocks
 	r.sched = newScheduler(r)
 	r.clock.init()
 	return r
